@@ -370,8 +370,21 @@ func c12Sequence(c *Ctx, s *netSpec, build func() *network.Network, steps int, d
 	}
 	std := build()
 	var trace []string
+	var prevIn []float64
 	for k := 0; k < 5; k++ {
 		in := randInputs(r, s.NIn, 2)
+		special := false
+		switch x := r.Intn(6); {
+		case x == 0:
+			// the all-zero vector: what a flushed instance holds anyway
+			in, special = make([]float64, s.NIn), true
+			c.Count("solver.sequence_all_zero_vector", 1)
+		case x == 1 && prevIn != nil:
+			// the vector loaded last, once more
+			in, special = append([]float64{}, prevIn...), true
+			c.Count("solver.sequence_same_vector_again", 1)
+		}
+		prevIn = in
 		want, _, sums := s.eval(in)
 		skip := false
 		for v := s.sensors(); v < s.total(); v++ {
@@ -383,10 +396,18 @@ func c12Sequence(c *Ctx, s *netSpec, build func() *network.Network, steps int, d
 			skip = skip || math.IsNaN(w) || math.IsInf(w, 0)
 		}
 		if skip {
+			if special {
+				continue
+			}
 			return true
 		}
 		flush := r.Intn(2) == 0
 		mode := r.Intn(3)
+		// "at least as many steps as the longest path": sometimes a few more, after which nothing changes any more
+		fsteps := steps
+		if r.Intn(3) == 0 {
+			fsteps += 1 + r.Intn(3)
+		}
 		if steps >= 2 && r.Intn(4) == 0 {
 			_, _ = std.MaxActivationDepthWithCap(1 + r.Intn(steps-1))
 			c.Count("solver.sequence_capped_depth_query_before", 1)
@@ -423,14 +444,14 @@ func c12Sequence(c *Ctx, s *netSpec, build func() *network.Network, steps int, d
 			switch {
 			case mode == 0:
 				op = "forward"
-				_, aerr = inst.solver.ForwardSteps(steps)
+				_, aerr = inst.solver.ForwardSteps(fsteps)
 			case mode == 1 && !(k2shape && inst.name == "std"):
 				op = "recursive"
 				_, aerr = inst.solver.RecursiveSteps()
 			default:
 				if inst.name == "std" {
 					op = "forward"
-					_, aerr = inst.solver.ForwardSteps(steps)
+					_, aerr = inst.solver.ForwardSteps(fsteps)
 				} else {
 					op = "relax"
 					_, aerr = inst.solver.Relax(s.total()+1, 1e-300)
